@@ -30,6 +30,8 @@ def verify(d, tag):
         r0 = sh([PY, os.path.join(d, "demo.py")], env=env, cwd=wt, timeout=1800)
         out["demo_without_patch_exit"] = r0.returncode
         r = sh(f"git -C {wt} apply {os.path.join(d, 'patch.diff')}")
+        if r.returncode != 0:  # the seed was written against an earlier HEAD: fall back to a 3-way merge
+            r = sh(f"git -C {wt} apply --3way {os.path.join(d, 'patch.diff')}")
         out["patch_applies"] = r.returncode == 0
         if r.returncode != 0:
             out["apply_error"] = r.stderr[-500:]
@@ -64,6 +66,8 @@ def detect(d, checks, tag="x"):
     res = {}
     try:
         r = sh(f"git -C {wt} apply {os.path.join(d, 'patch.diff')}")
+        if r.returncode != 0:
+            r = sh(f"git -C {wt} apply --3way {os.path.join(d, 'patch.diff')}")
         assert r.returncode == 0, r.stderr
         env = dict(os.environ, MC_REPO=wt, PYTHONPATH=wt)
         for c in checks:
